@@ -223,15 +223,321 @@ theorem gp_ok (g : GpInfoS) : okB g.unserialize = gpValid g := by
     · cases g.offset <;> cases g.provide <;> cases g.hidden <;> cases g.cond.unserialize <;>
         simp [AN.nonNull, notNull, he, okB]
 
-/-- the full statement for a whole document (what the run-time oracle evaluates on every
-case): parsing accepts exactly the valid trees. Proved below for file entries at every
-nesting depth, condition lists, `gp_info`, vram classes, symbol assignments, required symbols
-and asserts (`file_ok`, `files_ok`, `cond_ok`, `gp_ok`, `class_ok`, `assignment_ok`,
-`required_ok`, `assert_ok`); the segment, settings and document records are covered by the
-statement and by the exhaustive lattices of the correspondence run, their proofs are not
-finished (`accept_iff_valid_partial`). -/
-def accept_iff_valid_statement : Prop :=
-  ∀ y : Y, okB (parseDocument y) = validDoc y
+/-! ### segments, settings, the document record -/
+
+def toOpt {α} (a : AN α) : Option α := match a with | .value v => some v | _ => none
+
+theorem nnnd_eq {α} (a : AN α) :
+    a.nonNullNoDefault = if notNull a then .ok (toOpt a) else .error .nullValueOnNonNull := by
+  cases a <;> rfl
+
+theorem nn_eq {α} (a : AN α) (d : α) :
+    a.nonNull d = if notNull a then .ok ((toOpt a).getD d) else .error .nullValueOnNonNull := by
+  cases a <;> rfl
+
+theorem hasValue_eq {α} (a : AN α) : a.hasValue = (toOpt a).isSome := by cases a <;> rfl
+
+theorem gpOf_ok (s : SegmentS) :
+    okB (gpOf s) = (match s.gpInfo with | .null => false | .absent => true | .value g => gpValid g) ∧
+    (∀ gp, gpOf s = .ok gp → gp.isSome = s.gpInfo.hasValue ∧
+        (∀ g, gp = some g → ∃ gs, s.gpInfo = .value gs ∧ g.sect = gpSection gs)) := by
+  unfold gpOf
+  cases hg : s.gpInfo with
+  | null => simp [AN.nonNullNoDefault, okB]
+  | absent => simp [AN.nonNullNoDefault, okB, AN.hasValue]
+  | value g =>
+    simp only [AN.nonNullNoDefault]
+    rw [← gp_ok]
+    cases hu : g.unserialize with
+    | error e => simp [okB]
+    | ok x =>
+      simp only [okB, true_and, AN.hasValue]
+      intro gp hgp
+      injection hgp with hgp
+      subst hgp
+      refine ⟨rfl, ?_⟩
+      intro g' hg'
+      injection hg' with hg'
+      subst hg'
+      refine ⟨g, rfl, ?_⟩
+      unfold GpInfoS.unserialize at hu
+      unfold gpSection
+      cases hs : g.sect with
+      | null => simp [hs, AN.nonNull] at hu
+      | absent =>
+        simp only [hs, AN.nonNull] at hu
+        peel hu
+        all_goals first
+          | contradiction
+          | (injection hu with hu; subst hu; rfl)
+      | value sv =>
+        simp only [hs, AN.nonNull] at hu
+        peel hu
+        all_goals first
+          | contradiction
+          | (injection hu with hu; subst hu; rfl)
+
+theorem resolvedList_eq (a : AN (List Str)) (d : List Str) : (toOpt a).getD d = resolvedList a d := by
+  cases a <;> rfl
+
+theorem resolvedSub_eq (a : AN (List (Str × List Str))) (d : List (Str × List Str)) :
+    (toOpt a).getD d = resolvedSubgroups a d := by
+  cases a <;> rfl
+
+theorem segmentTail_ok (st : Settings) (s : SegmentS) (fv : Option Nat) (fs fol vc : Option Str) (dir : Str)
+    (gp : Option GpInfo) :
+    okB (segmentTail st s fv fs fol vc dir gp)
+      = (condValid s.cond && notNull s.over.allocSections && notNull s.over.noloadSections
+          && gpSectionOk gp (resolvedList s.over.allocSections st.allocSections) (resolvedList s.over.noloadSections st.noloadSections)
+          && notNull s.over.sectionsStartAlignment && notNull s.over.sectionsEndAlignment
+          && notNull s.over.wildcardSections && notNull s.over.sectionsSubgroups
+          && !hasSubgroupCycle (resolvedSubgroups s.over.sectionsSubgroups st.sectionsSubgroups)) := by
+  unfold segmentTail
+  rw [← cond_ok]
+  simp only [nn_eq, resolvedList_eq, resolvedSub_eq]
+  cases s.cond.unserialize with
+  | error e => simp [okB]
+  | ok cond =>
+    cases notNull s.over.allocSections <;> cases notNull s.over.noloadSections <;>
+      simp only [if_true, if_false, Bool.false_eq_true, okB_ok, okB_error, Bool.true_and, Bool.false_and, Bool.and_false] <;>
+    cases gpSectionOk gp (resolvedList s.over.allocSections st.allocSections) (resolvedList s.over.noloadSections st.noloadSections) <;>
+      simp only [Bool.not_true, Bool.not_false, if_true, if_false, Bool.false_eq_true, okB_error, Bool.true_and, Bool.false_and] <;>
+    cases notNull s.over.sectionsStartAlignment <;> cases notNull s.over.sectionsEndAlignment <;>
+      cases notNull s.over.wildcardSections <;> cases notNull s.over.sectionsSubgroups <;>
+      simp only [if_true, if_false, Bool.false_eq_true, okB_error, Bool.true_and, Bool.false_and, Bool.and_false] <;>
+    cases hasSubgroupCycle (resolvedSubgroups s.over.sectionsSubgroups st.sectionsSubgroups) <;>
+      simp [okB]
+
+/-- everything of a segment but its name and files: accepted iff no address field is `null`,
+at most one is given, `dir` is not `null`, `gp_info` (if written) is valid, not combined with
+`hardcoded_gp_value` and names a section of the segment's resolved lists, the condition lists
+are valid, none of the six non-nullable overrides is `null`, and the resolved
+`sections_subgroups` has no cycle. -/
+theorem segmentRest_ok (st : Settings) (s : SegmentS) : okB (segmentRest st s) = restValid st s := by
+  have hgp := gpOf_ok s
+  unfold segmentRest restValid
+  simp only [nnnd_eq, nn_eq, hasValue_eq] at *
+  cases h1 : notNull s.fixedVram <;> cases h2 : notNull s.fixedSymbol <;> cases h3 : notNull s.followsSegment <;>
+    cases h4 : notNull s.vramClass <;> simp only [if_true, if_false, Bool.false_eq_true, okB_error, Bool.false_and, Bool.and_false, Bool.true_and]
+  cases h5 : atMostOne [(toOpt s.fixedVram).isSome, (toOpt s.fixedSymbol).isSome, (toOpt s.followsSegment).isSome,
+      (toOpt s.vramClass).isSome] <;>
+    simp only [Bool.not_false, Bool.not_true, if_true, if_false, Bool.false_eq_true, okB_error, Bool.false_and, Bool.true_and]
+  cases h6 : notNull s.dir <;> simp only [if_true, if_false, Bool.false_eq_true, okB_error, Bool.false_and, Bool.true_and]
+  cases hgi : s.gpInfo with
+  | null =>
+    have h0 := hgp.1
+    simp only [hgi] at h0
+    cases hg : gpOf s with
+    | error e => simp [okB]
+    | ok gp => simp [hg, okB] at h0
+  | absent =>
+    have h0 := hgp.1
+    simp only [hgi] at h0
+    cases hg : gpOf s with
+    | error e => simp [hg, okB] at h0
+    | ok gp =>
+      obtain ⟨hsome, _⟩ := hgp.2 gp hg
+      simp only [hgi, toOpt, Option.isSome_none] at hsome
+      have hnone : gp = none := by cases gp <;> simp_all
+      subst hnone
+      simp only [Option.isSome_none, Bool.false_and, Bool.false_eq_true, if_false, segmentTail_ok, gpSectionOk,
+        Bool.true_and, Bool.and_true]
+  | value gs =>
+    have h0 := hgp.1
+    simp only [hgi] at h0
+    cases hg : gpOf s with
+    | error e =>
+      rw [hg] at h0
+      simp only [okB_error] at h0
+      simp only [okB_error, ← h0, Bool.false_and]
+    | ok gp =>
+      rw [hg] at h0
+      simp only [okB_ok] at h0
+      obtain ⟨hsome, hsect⟩ := hgp.2 gp hg
+      simp only [hgi, toOpt, Option.isSome_some] at hsome
+      cases gp with
+      | none => simp at hsome
+      | some g =>
+        obtain ⟨gs', hgs', hse⟩ := hsect g rfl
+        rw [hgi] at hgs'
+        injection hgs' with hgs'
+        subst hgs'
+        simp only [Option.isSome_some, Bool.true_and, ← h0]
+        cases hh : st.hardcodedGpValue with
+        | some v => simp [okB]
+        | none =>
+          simp only [Option.isSome_none, Bool.false_eq_true, if_false, segmentTail_ok, gpSectionOk, hse,
+            Option.isNone_none, Bool.and_true, Bool.true_and]
+          cases condValid s.cond <;> cases notNull s.over.allocSections <;> cases notNull s.over.noloadSections <;>
+            simp
+
+/-- **segments.** -/
+theorem segment_ok (pass : Bool) (st : Settings) (s : SegmentS) :
+    okB (SegmentS.unserialize pass st s) = segmentValid st s := by
+  unfold SegmentS.unserialize segmentValid
+  rw [← files_ok pass, ← segmentRest_ok]
+  by_cases hn : s.name = []
+  · simp [hn, okB]
+  · simp only [hn, if_false, ne_eq, not_false_eq_true, decide_true, Bool.true_and]
+    cases he : s.files.isEmpty
+    · simp only [Bool.false_eq_true, if_false, Bool.not_false, Bool.true_and]
+      cases FileS.unserializeList pass s.files with
+      | error e => simp [okB]
+      | ok files =>
+        cases segmentRest st s with
+        | error e => simp [okB]
+        | ok seg => simp [okB]
+    · simp [okB]
+
+/-- **settings.** -/
+theorem settings_ok (s : SettingsS) : okB s.unserialize = settingsValid s := by
+  unfold SettingsS.unserialize settingsValid
+  simp only [nn_eq, hasValue_eq]
+  cases notNull s.basePath <;> cases notNull s.style <;>
+    simp only [if_true, if_false, Bool.false_eq_true, okB_error, Bool.true_and, Bool.false_and] <;>
+  cases notNull s.symbolsHeaderType <;> cases notNull s.symbolsHeaderAsArray <;> cases notNull s.sectionsAllowlist <;>
+    cases notNull s.sectionsAllowlistExtra <;> cases notNull s.sectionsDenylist <;>
+    cases notNull s.discardWildcardSection <;> cases notNull s.singleSegmentMode <;>
+    simp only [if_true, if_false, Bool.false_eq_true, okB_error, Bool.true_and, Bool.false_and, Bool.and_false] <;>
+  cases hd : s.dPath <;> cases ht : s.targetPath <;>
+    simp only [AN.optionalNullable, toOpt, Option.isSome_some, Option.isSome_none, Option.isNone_some, Option.isNone_none,
+      Bool.and_true, Bool.and_false, Bool.false_eq_true, if_true, if_false, Bool.not_true, Bool.not_false, Bool.true_or,
+      Bool.or_true, Bool.or_false, Bool.false_or, okB_error, Bool.true_and, Bool.false_and] <;>
+  cases notNull s.over.allocSections <;> cases notNull s.over.noloadSections <;>
+    cases notNull s.over.sectionsStartAlignment <;> cases notNull s.over.sectionsEndAlignment <;>
+    cases notNull s.over.wildcardSections <;> cases notNull s.over.sectionsSubgroups <;>
+    simp [okB]
+
+theorem okB_mapE {α β} (f : α → D β) (l : List α) : okB (mapE f l) = l.all (fun a => okB (f a)) := by
+  induction l with
+  | nil => rfl
+  | cons a as ih =>
+    unfold mapE
+    cases h : f a with
+    | error e => simp [h]
+    | ok x =>
+      cases h2 : mapE f as with
+      | error e => rw [h2] at ih; simp [h, ← ih]
+      | ok ys => rw [h2] at ih; simp [h, ← ih]
+
+theorem listValid_ok {α β} (a : AN (List α)) (f : α → D β) (p : α → Bool) (hp : ∀ x, okB (f x) = p x) :
+    okB (match a.nonNull [] with
+         | .error e => (.error e : D (List β))
+         | .ok l => mapE f l) = listValid a p := by
+  cases a with
+  | absent => simp [AN.nonNull, listValid, mapE, okB]
+  | null => simp [AN.nonNull, listValid, okB]
+  | value l =>
+    simp only [AN.nonNull, listValid, okB_mapE]
+    congr 1
+    funext x
+    exact hp x
+
+theorem documentPost_ok (d : DocumentS) :
+    okB (documentPost d) = (notNull d.entry && listValid d.symbolAssignments assignmentValid
+      && listValid d.requiredSymbols requiredValid && listValid d.asserts assertValid) := by
+  unfold documentPost
+  rw [← listValid_ok d.symbolAssignments SymbolAssignmentS.unserialize assignmentValid assignment_ok,
+      ← listValid_ok d.requiredSymbols RequiredSymbolS.unserialize requiredValid required_ok,
+      ← listValid_ok d.asserts AssertS.unserialize assertValid assert_ok]
+  cases d.entry <;> simp only [AN.nonNullNoDefault, notNull, okB_error, Bool.false_and, Bool.true_and] <;>
+  cases d.symbolAssignments.nonNull [] <;> simp only [okB_error, Bool.false_and] <;>
+  (rename_i sas; cases mapE SymbolAssignmentS.unserialize sas <;> simp only [okB_error, okB_ok, Bool.false_and, Bool.true_and]) <;>
+  cases d.requiredSymbols.nonNull [] <;> simp only [okB_error, Bool.false_and] <;>
+  (rename_i rss; cases mapE RequiredSymbolS.unserialize rss <;> simp only [okB_error, okB_ok, Bool.false_and, Bool.true_and]) <;>
+  cases d.asserts.nonNull [] <;> simp only [okB_error] <;>
+  (rename_i ass; cases mapE AssertS.unserialize ass <;> simp only [okB_error, okB_ok])
+
+theorem documentPre_ok (d : DocumentS) :
+    okB (documentPre d) = (settingsPartValid d
+      && !d.segments.isEmpty && listValid d.vramClasses classValid) ∧
+    (∀ r, documentPre d = .ok r → settingsOf d = some r.1) := by
+  unfold documentPre settingsOf settingsPartValid
+  rw [← listValid_ok d.vramClasses VramClassS.unserialize classValid class_ok]
+  cases hs : d.settings with
+  | null => simp [AN.nonNullNoDefault, okB]
+  | absent =>
+    simp only [AN.nonNullNoDefault]
+    cases d.segments.isEmpty
+    · simp only [Bool.false_eq_true, if_false, Bool.not_false, Bool.true_and]
+      cases d.vramClasses.nonNull [] with
+      | error e => simp [okB]
+      | ok vcs =>
+        cases hm : mapE VramClassS.unserialize vcs with
+        | error e => simp [okB, hm]
+        | ok cl => simp [okB, hm]
+    · simp [okB]
+  | value sv =>
+    simp only [AN.nonNullNoDefault]
+    rw [← settings_ok]
+    cases hu : sv.unserialize with
+    | error e => simp [okB]
+    | ok st =>
+      simp only [okB_ok, Bool.true_and]
+      cases d.segments.isEmpty
+      · simp only [Bool.false_eq_true, if_false, Bool.not_false, Bool.true_and]
+        cases d.vramClasses.nonNull [] with
+        | error e => simp [okB]
+        | ok vcs =>
+          cases hm : mapE VramClassS.unserialize vcs with
+          | error e => simp [okB, hm]
+          | ok cl => simp [okB, hm]
+      · simp [okB]
+
+/-- **the document record.** -/
+theorem document_ok (pass : Bool) (d : DocumentS) : okB (d.unserialize pass) = documentValid d := by
+  unfold DocumentS.unserialize documentValid
+  obtain ⟨hpre, hst⟩ := documentPre_ok d
+  have hpost := documentPost_ok d
+  cases hp : documentPre d with
+  | error e =>
+    rw [hp] at hpre
+    simp only [okB_error] at hpre
+    simp only [okB_error]
+    -- the three conjuncts that `documentPre` decides are not all true
+    cases h1 : settingsPartValid d <;>
+      cases h2 : d.segments.isEmpty <;> cases h3 : listValid d.vramClasses classValid <;>
+      simp_all
+  | ok r =>
+    obtain ⟨st, classes⟩ := r
+    rw [hp] at hpre
+    simp only [okB_ok] at hpre
+    have hso := hst _ hp
+    simp only at hso
+    simp only [hso]
+    have h123 : settingsPartValid d = true ∧
+        d.segments.isEmpty = false ∧ listValid d.vramClasses classValid = true := by
+      cases h1 : settingsPartValid d <;>
+        cases h2 : d.segments.isEmpty <;> cases h3 : listValid d.vramClasses classValid <;> simp_all
+    simp only [h123.1, h123.2.1, h123.2.2, Bool.not_false, Bool.true_and]
+    have hsegs : okB (mapE (SegmentS.unserialize pass st) d.segments) = d.segments.all (segmentValid st) := by
+      rw [okB_mapE]
+      congr 1
+      funext x
+      exact segment_ok pass st x
+    rw [← hsegs]
+    cases mapE (SegmentS.unserialize pass st) d.segments with
+    | error e => simp [okB]
+    | ok segs =>
+      simp only [okB_ok, Bool.true_and]
+      simp only [Bool.and_assoc] at hpost ⊢
+      rw [← hpost]
+      cases documentPost d with
+      | error e => simp [okB]
+      | ok r2 => obtain ⟨a, b, c, e⟩ := r2; simp [okB]
+
+/-- **C16: a document is accepted iff it is valid**, for every canonical value tree: parsing
+succeeds exactly when the tree is well typed for the records (only known keys, no duplicate
+keys, scalar types, no `null` for the required strings) and every record satisfies its
+declarative table — file entries at every depth, condition lists, `gp_info`, segments
+(at most one address field, `gp_info` rules, no cyclic sub-groups), vram classes (exactly one
+placement), settings (`d_path` needs `target_path`, no `null` on non-nullable settings), the
+top-level lists, a non-empty `segments` list. -/
+theorem accept_iff_valid (y : Y) : okB (parseDocument y) = validDoc y := by
+  unfold parseDocument validDoc
+  cases dDocumentS y with
+  | error e => rfl
+  | ok ds => exact document_ok true ds
 
 /-- unknown keys, duplicate keys and ill-typed scalars are rejected at every one of the nine
 record levels: whatever parses has only known keys. -/
